@@ -52,6 +52,17 @@ SUPPORTED = [
     ("textDocument/hover", {"textDocument": {"uri": URI}, "position": {"line": 99, "character": 99}}),
     ("textDocument/completion", {"textDocument": {"uri": "file:///verif/never-opened.spl"}, "position": {"line": 0, "character": 0}}),
 ] + [
+    # every request kind on a document the server does not know (never opened, or closed): answered, not fatal
+    (m, dict({"textDocument": {"uri": "file:///verif/never-opened.spl"}}, **extra))
+    for m, extra in [("textDocument/foldingRange", {}), ("textDocument/semanticTokens/full", {}),
+                     ("textDocument/formatting", {"options": {"tabSize": 2, "insertSpaces": True}}),
+                     ("textDocument/hover", {"position": {"line": 0, "character": 0}}),
+                     ("textDocument/declaration", {"position": {"line": 0, "character": 0}}),
+                     ("textDocument/references", {"position": {"line": 0, "character": 0}, "context": {"includeDeclaration": True}}),
+                     ("textDocument/prepareRename", {"position": {"line": 0, "character": 0}}),
+                     ("textDocument/rename", {"position": {"line": 0, "character": 0}, "newName": "x"}),
+                     ("textDocument/signatureHelp", {"position": {"line": 0, "character": 0}})]
+] + [
     # rename: whatever the new name looks like, the request is answered (a result or an error response)
     ("textDocument/rename", {"textDocument": {"uri": URI}, "position": {"line": 2, "character": 5}, "newName": nn})
     for nn in ["total", "my counter", "loop-counter", "zähler", "", "1abc", "while", "printi", "a" * 300, "😀"]
@@ -77,6 +88,8 @@ def letter_message(letter, next_id, rng):
         return lc.request(next_id, m, {}), f"R{next_id}:{m}"
     if letter == "D":
         return lc.notification("textDocument/didOpen", {"textDocument": {"uri": URI, "languageId": "spl", "version": 1, "text": DOC}}), "N:textDocument/didOpen"
+    if letter == "C":
+        return lc.notification("textDocument/didClose", {"textDocument": {"uri": URI}}), "N:textDocument/didClose"
     if letter == "B":
         return lc.notification("textDocument/didOpen", {"textDocument": {"uri": URI, "languageId": "spl", "version": 1, "text": BIG_DOC}}), "N:textDocument/didOpen"
     if letter == "N":
@@ -135,6 +148,8 @@ def c18_cases(run):
     seqs.append("IJD" + "Q" * 150 + "SX")
     # requests pipelined behind a document whose analysis takes seconds, then more traffic and a clean shutdown
     seqs += ["IJBQQQSX", "IJBQDQUQSX"]
+    # requests on a closed document (and on documents never opened: part of the request pool)
+    seqs += ["IJDQC" + "Q" * 25 + "SX", "IJDCDQC" + "Q" * 25 + "SX", "IJC" + "Q" * 25 + "SX"]
     sessions = [build_session(s, rng) for s in seqs]
     violations = []
 
@@ -189,6 +204,47 @@ def c18_cases(run):
 
 
 # ---------------------------------------------------------------------------------------
+# C08: the position encoding the server announces is the one it computes (binary level)
+# ---------------------------------------------------------------------------------------
+
+def c08_cases(run):
+    """initialize with several `general.positionEncodings` offers; whatever the server announces must be what its
+    answers are counted in.  The server counts UTF-16 units: the announcement is absent or `utf-16`, and a
+    prepareRename behind non-ASCII characters answers the UTF-16 range."""
+    doc = "proc main() {\n    var \u00e4\u00f6: int; var x\U0001F600y: int; /*\u20ac*/ zz := 1;\n}\n".replace("/*", "").replace("*/", "")
+    # line 1: `    var äö: int; var x😀y: int; € zz := 1;`  -> `zz` starts at UTF-16 column 36, UTF-8 column 42
+    line = doc.split("\n")[1]
+    col16 = len(line[:line.index("zz")].encode("utf-16-le")) // 2
+    violations = []
+    offers = [None, ["utf-16"], ["utf-8", "utf-16"], ["utf-32", "utf-8", "utf-16"], ["utf-8"]]
+    for offer in offers:
+        caps = {"textDocument": {"publishDiagnostics": {}}}
+        if offer is not None:
+            caps["general"] = {"positionEncodings": offer}
+        msgs = [lc.request(1, "initialize", {"capabilities": caps}), lc.notification("initialized", {}),
+                lc.notification("textDocument/didOpen", {"textDocument": {"uri": URI, "languageId": "spl", "version": 1, "text": doc}}),
+                lc.request(2, "textDocument/prepareRename", {"textDocument": {"uri": URI}, "position": {"line": 1, "character": col16}}),
+                lc.request(3, "shutdown"), lc.notification("exit")]
+        r = lc.run_session([b"".join(lc.frame(m) for m in msgs)], timeout=20)
+        case = f"SESSION position-encoding offer={offer}"
+        if r["timed_out"] or r["problems"] or r["rc"] != 0:
+            violations.append(("binary", case, f"rc={r['rc']} problems={r['problems']} timed_out={r['timed_out']}", "", "session failed"))
+            continue
+        byid = {m.get("id"): m for m in r["messages"] if "id" in m and "method" not in m}
+        enc = ((byid.get(1) or {}).get("result") or {}).get("capabilities", {}).get("positionEncoding")
+        if enc not in (None, "utf-16"):
+            violations.append(("binary", case, f"announces positionEncoding={enc}", "absent or utf-16", "the server counts UTF-16 units but announces another position encoding"))
+            continue
+        res = (byid.get(2) or {}).get("result")
+        want = {"start": {"line": 1, "character": col16}, "end": {"line": 1, "character": col16 + 2}}
+        got = res.get("range", res) if isinstance(res, dict) else res
+        if got != want:
+            violations.append(("binary", case, json.dumps(res), json.dumps(want), "prepareRename behind non-ASCII characters does not answer the UTF-16 range of the identifier"))
+    run.stats_extra["c08_encoding_sessions"] = len(offers)
+    return [], violations
+
+
+# ---------------------------------------------------------------------------------------
 # C19: framing independent of chunking (binary level)
 # ---------------------------------------------------------------------------------------
 
@@ -205,6 +261,18 @@ def c19_flood_session():
     for k in range(160):
         msgs.append(lc.request(6000 + k, "textDocument/hover" if k % 3 else "foo/bar", {"textDocument": {"uri": URI}, "position": {"line": 2, "character": 5}}))
     msgs.append(lc.notification("exit"))
+    return b"".join(lc.frame(m) for m in msgs)
+
+
+def c19_huge_session():
+    """frames of more than 2 MiB in both directions: a document with a 2.2 MiB identifier, its diagnostics and its
+    formatted text"""
+    big = "proc main() {\n    " + "a" * (2 * 1024 * 1024 + 200 * 1024) + " := 1;\n}\n"
+    msgs = [lc.request(1, "initialize", INIT_PARAMS_DIAG), lc.notification("initialized", {}),
+            lc.notification("textDocument/didOpen", {"textDocument": {"uri": URI, "languageId": "spl", "version": 1, "text": big}}),
+            lc.request(2, "textDocument/formatting", {"textDocument": {"uri": URI}, "options": {"tabSize": 2, "insertSpaces": True}}),
+            lc.request(3, "textDocument/hover", {"textDocument": {"uri": URI}, "position": {"line": 0, "character": 6}}),
+            lc.request(4, "shutdown"), lc.notification("exit")]
     return b"".join(lc.frame(m) for m in msgs)
 
 
@@ -237,9 +305,9 @@ def c19_cases(run):
     thorough = run.tier == "thorough"
     violations = []
     n_runs = 0
-    for variant in list(range(3 if thorough else 2)) + ["flood"]:
-        flood = variant == "flood"
-        data = c19_flood_session() if flood else c19_session(variant)
+    for variant in list(range(3 if thorough else 2)) + ["flood", "huge"]:
+        flood = variant in ("flood", "huge")
+        data = c19_huge_session() if variant == "huge" else c19_flood_session() if flood else c19_session(variant)
         base = lc.run_session([data], timeout=20)
         if base["timed_out"] or base["problems"] or base["rc"] != 0:
             violations.append(("binary", f"SESSION {variant} unsplit", f"rc={base['rc']} problems={base['problems']} timed_out={base['timed_out']}", "", "baseline session failed"))
@@ -291,7 +359,7 @@ def c19_cases(run):
 # C20: ordering, read-your-writes, isolation under load (binary level)
 # ---------------------------------------------------------------------------------------
 
-C20_URIS = ["file:///a.spl", "untitled:/a.spl", "file:///b.spl", "file:///dir/a.spl", "file:///%C3%A4.spl"]
+C20_URIS = ["file:///a.spl", "untitled:/a.spl", "file:///b.spl", "file:///dir/a.spl", "file:///%C3%A4.spl", "file:///A.spl", "file:///dir/a.spl?ref=HEAD"]
 C20_TEXTS = [
     "proc main() {\n}\n",
     "type t = int;\nproc main() {\n    var i: t;\n    i := 1;\n}\n",
@@ -400,6 +468,8 @@ def c20_cases(run):
     # in order (a closed document is forgotten, the edits before the close are not lost)
     small = "proc helper(i: int) {}\n"
     hists.append(([f"O1={_hex(small)}", f"O0={_hex(BIG_DOC)}"] + ["C1=R:0:0:0:0:" + _hex(" ")] * 150 + ["X1", "P1", "H1", "O1=" + _hex(C20_TEXTS[1]), "P1"], True))
+    # ... and a document OPENED behind the pile is there for the request that follows it
+    hists.append(([f"O1={_hex(small)}", f"O0={_hex(BIG_DOC)}"] + ["C1=R:0:0:0:0:" + _hex(" ")] * 150 + ["O2=" + _hex(C20_TEXTS[2]), "P2", "H2", "C2=R:0:0:0:0:" + _hex("// x\n"), "P2"], True))
     slow = [i % 3 == 1 or n_hist <= i < n_small for i in range(len(hists))]
     # sequential in-process reference
     seq_in = "\n".join(f"SEQ {1 if d else 0} " + " ".join(t) for t, d in hists) + "\n"
